@@ -66,7 +66,7 @@ BASE_NS = 10_000_000_000
 def clocks_strategy(tier):
     big = tier == "thorough"
     step = st.tuples(st.sampled_from([0, 1, 1, 2, 2, 2]), st.integers(0, 4),
-                     st.sampled_from([0, 0, 1, 10, 1000, 10**6, 10**9]), st.integers(0, 40)).map(list)
+                     st.sampled_from([0, 0, 0, 0, 1, 10, 1000, 10**6, 10**9]), st.integers(0, 40)).map(list)
     return st.fixed_dictionaries({
         "n": st.integers(2, 5),
         "init": st.lists(st.integers(0, 6), max_size=5),
@@ -75,6 +75,9 @@ def clocks_strategy(tier):
         "vc_ids": st.sampled_from(["full", "self"]),
         "hlc": st.sampled_from(["wall", "node-skew", "node-drift", "node-both"]),
         "wire": st.booleans(),
+        # tempo: 0 = as generated; 1 = identical physical clocks on all nodes; 2 = additionally global time frozen
+        # (every HLC comparison is then decided by the logical component alone)
+        "tempo": st.sampled_from([0, 0, 1, 2]),
         "steps": st.lists(step, min_size=1, max_size=70 if big else 32),
     })
 
@@ -91,6 +94,9 @@ def ex_clocks(case):
     skew = [int(_at(case.get("skew") or [], i)) for i in range(n)]
     ppm = [max(-999_999, int(_at(case.get("ppm") or [], i))) for i in range(n)]
     mode = case.get("hlc", "wall")
+    tempo = _clamp(case.get("tempo", 0) or 0, 0, 2)
+    if tempo >= 1:
+        skew, ppm = [skew[0]] * n, [ppm[0]] * n
     g = [BASE_NS]
     clock = Clock(Instant(BASE_NS))
 
@@ -122,7 +128,7 @@ def ex_clocks(case):
     msgs = []        # (send event index, lamport ts, vector dict, hlc ts)
     for s in case.get("steps") or []:
         kind, i, dt, m = (list(s) + [0, 0, 0, 0])[:4]
-        kind, i, dt, m = int(kind) % 3, int(i) % n, max(0, int(dt)), int(m)
+        kind, i, dt, m = int(kind) % 3, int(i) % n, (0 if tempo == 2 else max(0, int(dt))), int(m)
         g[0] += dt
         clock.update(Instant(g[0]))
         mask, hp = 0, 0
@@ -187,7 +193,7 @@ def ex_clocks(case):
                     add(f"{P}/clocks/vector-concurrent-mismatch", f"e{a} || e{b} not reported concurrent")
     chain = max(hops) if hops else 0
     r.nontrivial = conc >= 1 and chain >= 2
-    r.labels += [f"conc-{'y' if conc else 'n'}", f"chain-{min(chain, 3)}", f"hlc-{mode}"]
+    r.labels += [f"conc-{'y' if conc else 'n'}", f"chain-{min(chain, 3)}", f"hlc-{mode}", f"tempo-{tempo}"]
     r.target = float(min(conc, 50) + 10 * min(chain, 5))
     return r
 
@@ -902,14 +908,14 @@ def ex_store_safe(case):
 
 # =============================================================================== registry
 OBLIGATIONS = [
-    Obligation("clocks", clocks_strategy, ex_clocks, {"quick": 3000, "thorough": 120000},
+    Obligation("clocks", clocks_strategy, ex_clocks, {"quick": 3000, "thorough": 400000},
                "histories over 2..5 nodes of local/send/deliver steps (a deliver picks any earlier message: duplicates, "
                "reordering, self-delivery, never-delivered messages), Lamport clocks with different initial values, vector "
                "clocks built with the full or only the own id list, HLCs on wall-time callables or NodeClock(FixedSkew/"
                "LinearDrift/both) with skews up to seconds and drifts up to +-50%, optional to_dict/from_dict of HLC "
                "timestamps on the wire; happened-before = transitive closure of program order and send->deliver; "
                "non-trivial = at least one concurrent pair and a causal chain crossing nodes at least twice"),
-    Obligation("crdt", crdt_strategy(TYPES), ex_crdt, {"quick": 6000, "thorough": 240000},
+    Obligation("crdt", crdt_strategy(TYPES), ex_crdt, {"quick": 6000, "thorough": 600000},
                "op/merge schedules on 2..4 replicas of one CRDT type (increment/decrement amounts 1..3, add/remove over 1..3 "
                "string elements, LWW sets with unique generated HLC timestamps in any order) with merges from deep copies, "
                "self-merges and merges through to_dict/from_dict, judged after every step against the knowledge-set "
@@ -918,7 +924,7 @@ OBLIGATIONS = [
                "1 element / <=3 with 2 elements); non-trivial = OR-set: a remove and merges in both directions after it; "
                "others: >=2 ops, >=2 merges, >=2 replicas with updates",
                enumerate=crdt_enum),
-    Obligation("orset-safe", crdt_strategy(["or"]), ex_orset_safe, {"quick": 3000, "thorough": 120000},
+    Obligation("orset-safe", crdt_strategy(["or"]), ex_orset_safe, {"quick": 3000, "thorough": 300000},
                "as `crdt` for OR-sets, but a remove is executed only if no other replica knows any add it observes (otherwise "
                "skipped), the domain in which the missing-tombstone defect cannot occur; no exclusions; non-trivial = a remove "
                "executed and merges in both directions after it",
@@ -926,7 +932,7 @@ OBLIGATIONS = [
     Obligation("roundtrip", roundtrip_strategy, ex_roundtrip, {"quick": 600, "thorough": 20000},
                "OR-sets / LWW registers holding ints, bools, tuples and digit strings through from_dict(to_dict()); "
                "non-trivial = a non-string payload and >=2 ops"),
-    Obligation("store", store_strategy(False), ex_store, {"quick": 500, "thorough": 20000},
+    Obligation("store", store_strategy(False), ex_store, {"quick": 500, "thorough": 60000},
                "2..4 CRDTStore entities (G/PN counter or OR-set factory, two keys) on a Network with scripted per-message link "
                "latencies (1..40 ticks, overtaking), gossip intervals 32/48/64 ticks, optional 25/50% packet loss and one "
                "partition window during the write phase, generated Write/Read events, gossip peer choices from the case; "
@@ -934,7 +940,7 @@ OBLIGATIONS = [
                "n loss-free round-robin intervals every store holds every update and all replicas are equal; non-trivial = "
                "converged run with >=2 stores writing one key and >=2 merges",
                max_shards=16),
-    Obligation("store-safe", store_strategy(True), ex_store_safe, {"quick": 300, "thorough": 12000},
+    Obligation("store-safe", store_strategy(True), ex_store_safe, {"quick": 300, "thorough": 30000},
                "as `store`, but every store writes every key at t=0 (before the first gossip round, so no replica is created "
                "from remote state) and OR-sets are add-only; no exclusions"),
 ]
